@@ -147,12 +147,12 @@ def accumulate_indices_means_vars(data, means):
     # they get accumulated in the next function
     means_sum = np.zeros((n_clusters, n_features), like=data)
     variances_sum = np.zeros((n_clusters, n_features), like=data)
+    # accumulate around the centroid: the variance does not depend on the
+    # origin, and raw moments cancel catastrophically for data far from zero
     for i in range(n_clusters):
-        means_sum[i] = np.sum(data[closest_centroid_indices == i], axis=0)
-    for i in range(n_clusters):
-        variances_sum[i] = np.sum(
-            data[closest_centroid_indices == i] ** 2, axis=0
-        )
+        centered = data[closest_centroid_indices == i] - means[i]
+        means_sum[i] = np.sum(centered, axis=0)
+        variances_sum[i] = np.sum(centered**2, axis=0)
     return closest_centroid_indices, means_sum, variances_sum
 
 
